@@ -35,10 +35,14 @@ CLAIMS = {
          "Every cell of small trees exhaustively and random cells up to 60-bit indices: bijection, parent/child/octant, interaction and neighbour lists as multisets with position codes, per-cell and per-group builders with both filters.", "3/C11"),
  "C12": ("property-based testing over generated execute() histories (ordered flag partitions x working level) with per-call write-set and operator oracles",
          "Staged histories must only run the requested operators at working levels, write only their outputs, and end in the state of one full run and of the model.", "3/C12"),
+ "C14": ("property-based testing: stateful operation sequences on 12 memory-block layouts with address-range/overlap invariants and byte-copy round trips; byte-copied tree groups compared through accessors and operators",
+         "Generated layouts, counts around alignment boundaries and op sequences; invariants on every reachable element address; raw views of byte copies must be equivalent for accessors and for kernel operators.", "3/C14"),
  "C16": ("property-based testing: lookup results against a definitional Morton model, exhaustive index ranges on small levels",
          "Every index of small levels and generated/present/adjacent/out-of-range indices of large ones: found iff present, position correct, group accessors equal a linear scan.", "3/C16"),
  "C17": ("property-based testing: export arrays against the input rows and the per-particle results read through the leaf iterator",
          "getAllParticlesData/Rhs entry i must equal the data/result of the particle inserted at i, for all generated trees.", "3/C17"),
+ "C20": ("property-based testing of FP2PR against an independent extended-precision evaluation of the pairwise law with a stated rounding tolerance; metamorphic mutual = two one-sided",
+         "Generated clouds over 12 orders of magnitude of separation and counts around SIMD widths; every output component compared with a long double reference; self term, accumulation into pre-filled arrays, Newton's third law.", "3/C20"),
 }
 
 PENDING = "check not built yet in this session (design in DESIGN.md section 3)"
